@@ -477,7 +477,7 @@ def run(tier, seed, result):
                 ((0, 0), [(0, '/'), (1, '/')], [[1, '/']])]
     else:
         cfgs = [((0, 1), [(0, '/'), (1, '/'), (0, '/x'), (1, '/x')],
-                 [[1, '/'], [0, '/']]),
+                 [[0, '/']]),
                 ((0, 0), [(0, '/'), (1, '/'), (0, '/x')], [[1, '/']]),
                 ((0, 1, 2), [(0, '/'), (1, '/'), (2, '/')], [[2, '/']]),
                 ((0, 1, 1), [(0, '/'), (1, '/'), (2, '/')], [[1, '/']]),
